@@ -8,6 +8,9 @@ PROP = dict(
         # the 1.3x10^8-call duration sweep: non-sanitized -O2 build, block-journalled hot loop
         dict(name="c18_sweep", src="harness/c18_time.cc", deps=["harness/c18/ref.hh"], flags=["-DC18_SWEEP_ONLY"], flavor="o2",
              shards_quick=8, shards_thorough=16, timeout_quick=400, timeout_thorough=1500),
+        # independent cross-check in Python: datetime for the calendar, fractions.Fraction for duration texts and size bounds
+        dict(name="c18_py", kind="pydriver", driver="oracle/c18_time.py", shim="shim/c18_shim.cc", deps=["shim/shim.hh"],
+             shards_quick=4, shards_thorough=8, timeout_quick=400, timeout_thorough=1500),
     ],
     rule=("exhaustive windows + rapidcheck. Durations: every microsecond within +-3 ms of 1 s / 60 s / 3600 s / 86400 s, every 997th of the +-2 s "
           "windows and a grid of day/hour/minute/second/fraction extremes through the sanitized build, every 11th (quick) / every (thorough) "
@@ -15,7 +18,8 @@ PROP = dict(
           "multiples, rounding ties, 59.99.. carries). Timestamps: second 0, 59 and 86399 of every day 1970-01-01..9999-12-31, every day of nine "
           "corner years, random (leap-day / new-year / century biased) with random microseconds. Sizes: 1024^k+-3, mantissa rounding corners of every "
           "unit, 2^k+-1, every size below 1.1 MiB (quick) / 5 MiB (thorough), random 64-bit, both include_bytes; parse_size texts for every unit letter. "
-          "timeval: boundaries + random usecs < 2^63. Non-trivial: a duration >= 60 s with explicit precision or within 1 ms of a unit boundary "
+          "timeval: boundaries + random usecs < 2^63. A Hypothesis driver repeats a sample of all three families (every 37th/7th day, +-2 ms duration windows, "
+          "unit boundaries, generated batches) against Python's datetime and fractions.Fraction. Non-trivial: a duration >= 60 s with explicit precision or within 1 ms of a unit boundary "
           "(distinct (usecs, precision)); a timestamp on Feb 28/29, Mar 1, Dec 31, Jan 1, at second 59 or with non-zero microseconds; a size >= 1024; "
           "a parse_size text with a unit and a fraction; a timeval with both fields non-zero. Distinct = distinct case encodings (hash)."),
     assumptions=["subsecond_precision in -1..6; durations <= 2^63 us", "timestamps in years 1970..9999 (UTC)",
@@ -26,12 +30,13 @@ PROP = dict(
     min_evaluations_quick=1000000,
     technique=("property-based testing: exhaustive window sweeps + rapidcheck generation against references written in the harness with exact "
                "integer arithmetic (duration-text evaluator in 128-bit microseconds, days-to-civil conversion cross-checked against std::chrono and "
-               "a year-by-year count, 128-bit mantissa bounds for sizes)"),
+               "a year-by-year count, 128-bit mantissa bounds for sizes); Hypothesis + C++ serve shim for the differential against Python's datetime / Fraction"),
     level_text=("Exploration: every case runs the real functions and compares with an independent exact computation. The windows named in the property "
                 "(+-2 s around the four unit boundaries at microsecond resolution x 8 precisions in the thorough tier, every day of years 1970..9999, "
                 "every power-of-1024 boundary) are enumerated completely; durations up to 2^63 us, arbitrary timestamps and 64-bit sizes are sampled. "
                 "The full-resolution sweep runs on a non-sanitized -O2 build (memory safety is not the claim there); everything else runs under "
                 "ASan+UBSan. It is not a proof for all 2^64 inputs."),
-    level_note="Trusts the compiler, 128-bit integer arithmetic, snprintf of integers, and (for the cross-check of the reference only) libstdc++'s std::chrono calendar.",
-    engine="rapidcheck + exhaustive enumerators",
+    level_note=("Trusts the compiler, 128-bit integer arithmetic, snprintf of integers, libstdc++'s std::chrono calendar (cross-check of the reference only) "
+                "and CPython's datetime / fractions modules (second, independent reference)."),
+    engine="rapidcheck + exhaustive enumerators; Hypothesis + serve shim",
 )
